@@ -88,7 +88,9 @@ def multi_byte(data, regions, rng, count):
         if e <= s:
             continue
         off = s if i % 3 == 0 else rng.randrange(s, e)
-        ln = min(n - off, rng.choice((2, 3, 4, 8, 16, 64)))
+        ln = min(n - off, e - off, rng.choice((2, 3, 4, 8, 16, 64)))      # stays inside one region: the region names the finding
+        if ln < 2:
+            continue
         style = i % 3
         new = bytes(rng.randrange(256) for _ in range(ln)) if style == 0 else (b"\0" * ln if style == 1 else b"\xff" * ln)
         if new == data[off:off + ln]:
@@ -112,7 +114,7 @@ def truncations(data, regions, rng, count):
 def appends(data, extra=()):
     out = []
     for name, tail in [("1-byte", b"\0"), ("newline", b"\n"), ("32-bytes", bytes(range(65, 97))), ("self-prefix", bytes(data[:64]))] + list(extra):
-        out.append({"kind": "append", "ops": [["append", tail.hex()]], "label": "append:" + name, "offset": len(data)})
+        out.append({"kind": "append", "ops": [["append", tail.hex()]], "label": "append", "variant": name, "offset": len(data)})
     return out
 
 
@@ -120,7 +122,7 @@ def inserts(data, points, rng):
     out = []
     for name, p in points:
         if 0 <= p <= len(data):
-            out.append({"kind": "insert", "ops": [["insert", p, b"INSERTED-BYTES-0123456789".hex()]], "label": "insert:" + name, "offset": p})
+            out.append({"kind": "insert", "ops": [["insert", p, b"INSERTED-BYTES-0123456789".hex()]], "label": "insert-" + name, "offset": p})
     return out
 
 
